@@ -608,6 +608,12 @@ class CExec:
             # pointer-valued elements are opaque objects
             return Ptr(o.elem, "%s[]" % p.obj, z3.IntVal(0))
         t = z3.simplify(z3.Select(st.mem[p.obj], p.off))
+        view = getattr(p.ty, "pointee", None)
+        if (view is not None and view.kind == "int" and o.elem.kind == "int" and view.bits == 8 and o.elem.bits == 8
+                and view.signed != o.elem.signed):
+            # char object read through a pointer to the other char signedness (C11 6.5p7 allows it): same byte, other view
+            t2 = t % 256 if not view.signed else z3.If(t >= 128, t - 256, t)
+            return CV(view, z3.simplify(t2))
         return CV(o.elem, t)
 
     def store(self, st, p, v, node):
@@ -1054,6 +1060,13 @@ class CExec:
             st.path.append(z3.And(r >= -255, r <= 255))
             st.path.append((r == 0) == z3.ForAll([i], z3.Implies(z3.And(i >= 0, i < n_),
                                                                  z3.Select(st.mem[a_.obj], a_.off + i) == z3.Select(st.mem[b_.obj], b_.off + i))))
+            # a non-zero result has the sign of the difference of the first differing bytes, compared as unsigned char
+            k = self.fresh("memcmp_first_diff")
+            ua = z3.Select(st.mem[a_.obj], a_.off + k) % 256
+            ub = z3.Select(st.mem[b_.obj], b_.off + k) % 256
+            st.path.append(z3.Implies(r != 0, z3.And(k >= 0, k < n_, ua != ub, (r < 0) == (ua < ub),
+                                                      z3.ForAll([i], z3.Implies(z3.And(i >= 0, i < k),
+                                                                                z3.Select(st.mem[a_.obj], a_.off + i) == z3.Select(st.mem[b_.obj], b_.off + i))))))
             return CV(ty, r)
         if name in ("abs", "labs", "llabs"):
             x = self.ev(st, argn[0])
